@@ -34,6 +34,7 @@ import (
 	"os"
 	"runtime/debug"
 	"strings"
+	"sync/atomic"
 	"time"
 
 	"github.com/mdzio/go-mqtt/service"
@@ -121,8 +122,27 @@ func lifeTakeover(variant string) string {
 	// registration in Server.svcs follows the CONNACK
 	time.Sleep(100 * time.Millisecond)
 	slow.setPaused(true)
-	flood(fl, "w", 60)
-	time.Sleep(300 * time.Millisecond)
+	// 60 packets are more than S's outgoing ring, F's incoming ring and the pipes hold: the flooder's writes
+	// stall when F's processor is parked in S's ring.  Wait for that (not for a fixed time).
+	var sent int64
+	go func() {
+		pkt := wPub{topic: []byte("w"), payload: make([]byte, 1000)}.encode()
+		for i := 0; i < 60; i++ {
+			fl.conn.SetWriteDeadline(time.Now().Add(60 * time.Second))
+			if _, err := fl.conn.Write(pkt); err != nil {
+				return
+			}
+			atomic.AddInt64(&sent, 1)
+		}
+	}()
+	for last, same, i := int64(-1), 0, 0; i < 100 && same < 4; i++ {
+		time.Sleep(50 * time.Millisecond)
+		if n := atomic.LoadInt64(&sent); n == last && n >= 17 {
+			same++
+		} else {
+			last, same = n, 0
+		}
+	}
 
 	if variant == "disc" {
 		// the PUBLISH parks A's processor behind S's full ring; the DISCONNECT waits in A's incoming ring
